@@ -65,9 +65,16 @@ def _pure(rng):
     else:
         op = ['query', rng.choice(QUERIES)]
     # reference times written with the hour only are units the library reads (06Z, 06 UTC, T06)
+    if rng.random() < 0.06:
+        # a rename that maps every name onto itself is still an operation: its result is a new file
+        ns = rng.sample(sorted(st['dims']), rng.randint(1, len(st['dims'])))
+        op = ['renamedims', [[n, n] for n in ns]] if rng.random() < 0.6 else ['renamedim', ns[0], ns[0]]
     tunits = rng.choice(['hours since 2001-02-03 00:00:00+0000', 'hours since 2001-02-03 00:00:00+0000',
                          'hours since 2001-02-03 06Z', 'hours since 2001-02-03 06 UTC', 'hours since 2001-02-03T06'])
-    return dict(kind='pure', spec=spec, op=op, tunits=tunits)
+    # a receiver that was opened from a netCDF file on disk (its variables are the library's handles on the file)
+    disk = (op[0] in ('copy', 'slice', 'apply', 'subset', 'maskgt') or op in (['query', 'save'], ['query', 'repr'], ['query', 'eval_expr'],
+                                                                          ['query', 'getvarpnc'])) and rng.random() < 0.25
+    return dict(kind='pure', spec=spec, op=op, tunits=tunits, disk=disk)
 
 
 def _iopure(rng):
@@ -84,6 +91,13 @@ def gen(rng, tier):
     out = []
     for i in range(n):
         out.append(_hist(rng) if i % 3 == 0 else (_iopure(rng) if i % 3 == 1 and i % 2 == 0 else _pure(rng)))
+    # queries on receivers opened from disk whose variables have missing values (save, repr, variable extraction, eval)
+    for q in (['query', 'save'], ['query', 'save'], ['query', 'repr'], ['query', 'getvarpnc'], ['query', 'eval_expr'], ['copy']):
+        spec = pfile.gen_file(rng, maxlen=3, masked_prob=0.8, scalar_prob=0.0)
+        for v in spec['vars']:
+            if v['dtype'] == 'f':
+                v['dtype'] = 'd'
+        out.append(dict(kind='pure', spec=spec, op=q, tunits='hours since 2001-02-03 00:00:00+0000', disk=True))
     # the history that used to break another file (double close through the finaliser)
     out.append(dict(kind='hist', evs=[['o', 0], ['c', 0], ['o', 1], ['d', 0]]))
     out.append(dict(kind='hist', evs=[['o', 0], ['o', 1], ['c', 0], ['c', 0], ['o', 2], ['c', 0], ['d', 0]]))
@@ -268,6 +282,27 @@ def impl(case):
                 tb.units = tv.units
                 tb[:, 0] = tv[:] - 3
                 tb[:, 1] = tv[:] + 3
+    dpath = None
+    if case.get('disk'):
+        import tempfile
+        import PseudoNetCDF as pnc
+        dpath = tempfile.mktemp(suffix='.nc', prefix='pncverif_c05d_')
+        with lib.pnc_warnings():
+            f.save(dpath, format='NETCDF4_CLASSIC', verbose=0).close()
+            f = pnc.pncopen(dpath, format='netcdf')
+    try:
+        return _impl_pure(case, spec, f)
+    finally:
+        if dpath:
+            try:
+                f.close()
+            except Exception:
+                pass
+            if os.path.exists(dpath):
+                os.remove(dpath)
+
+
+def _impl_pure(case, spec, f):
     if case['op'][0] == 'query' and case['op'][1].startswith('eval_chain'):
         # the receiver is itself the result of an earlier step: a derived variable stored under another key
         ks = [v['name'] for v in spec['vars'] if v['dims'] and v['dims'] != [v['name']]]
@@ -291,6 +326,8 @@ def impl(case):
             g = None
     res['changed'] = _diffsnap(before, _snap(f))
     res['alias'] = []
+    if g is f and case['op'][0] != 'query':
+        res['same_object'] = True
     if g is not None and g is not f:
         res['nvars'] = len(g.variables)
         for k in g.variables:
@@ -388,6 +425,8 @@ def oracle(case, res):
     op = case.get('op') or res.get('op')
     if res.get('changed'):
         return 'operation %s modified its input: %s' % (op, res['changed'])
+    if res.get('same_object'):
+        return 'the result of %s is the receiver itself, not a new file' % (op,)
     if res.get('alias'):
         return 'aliasing: result of %s shares memory with the input: %s' % (op, res['alias'][:3])
     if res.get('changed_after_write'):
